@@ -191,5 +191,10 @@ def cross_check(smt, timeout=600):
             res[name] = 'absent'
             continue
         ans = smt.replay_with(cmd, timeout)
-        res[name] = 'agree' if ans == smt.answers else 'DISAGREE %s vs %s' % (ans, smt.answers)
+        if ans == ['timeout']:
+            res[name] = 'timeout'           # the other build did not finish: no information, not a disagreement
+        elif ans is not None and len(ans) == len(smt.answers) and all(a == b or a == 'unknown' for a, b in zip(ans, smt.answers)):
+            res[name] = 'agree' if ans == smt.answers else 'agree-or-unknown'
+        else:
+            res[name] = 'DISAGREE %s vs %s' % (ans, smt.answers)
     return res
